@@ -250,3 +250,96 @@ func c11Downloads(r *hk.Run, rng *hk.Rand, o *c11Origin, n int) {
 			"d|"+strings.Join(plain, ",")+"|"+init.render()+"|"+strings.Join(p.targets, ","), len(keys) == 4)
 	}
 }
+
+// (b6) digest auth: the chain, when it completes, ends in a 401 with a Digest challenge - answered by
+// whichever host the chain ended on; the client then re-sends the FIRST request with the digest answer
+func c11Digests(r *hk.Run, rng *hk.Rand, o *c11Origin, n int) {
+	for i := 0; i < n; i++ {
+		init := noZone(rng, func() authority { return genAuthority(rng) })
+		var forced []polSpec
+		if rng.Chance(25) {
+			forced = append(forced, specMax(rng.Range(1, 5)))
+		}
+		p := genPlan(rng, init, hopsFor(rng, specsLimit(forced)), nil, rng.Chance(40))
+		pool := append([]authority{init}, p.targetAuth...)
+		var specs []polSpec
+		if rng.Chance(50) {
+			specs = append(forced, genSpecs(rng, pool, 1-len(forced), 2)...)
+		} else {
+			specs = append(forced, specAllowed(rng.Bool(), pool, rng.Intn(4))) // permissive: the 401 is reached
+			if rng.Chance(30) {
+				specs = append(specs, specAlwaysCopy(rng))
+			}
+		}
+		genHdr(rng, &p, []int{0, 0, 1, 2})
+		genOverride(rng, &p, 15)
+		c := req.C().SetRedirectPolicy(specsMk(specs)...).SetDial(o.dial)
+		applyClientCreds(c, p.cred)
+		whole := p
+		whole.loc = append(append([]string(nil), p.loc...), "")
+		whole.status = append(append([]int(nil), p.status...), 401)
+		id := fmt.Sprintf("a%d", i)
+		clientLevel := rng.Chance(30)
+		if clientLevel {
+			c.SetCommonDigestAuth("roc", "s3cret")
+		}
+		r.Count(fmt.Sprintf("digest.client-level=%v", clientLevel))
+		res := runChainWith(o, c, id, whole, nil, func(rq *req.Request) {
+			if !clientLevel {
+				rq.SetDigestAuth("roc", "s3cret")
+			}
+		})
+		c.GetTransport().CloseIdleConnections()
+		coqPs, plain := specsCoq(specs)
+		in := map[string]interface{}{"policies": plain, "plan": p.desc(), "last-answer": "401 + WWW-Authenticate: Digest", "digest": "Request.SetDigestAuth"}
+		nChain := 1 + len(p.targets)
+		chain := res
+		var resend *c11Hit
+		if len(res.obs) > nChain {
+			chain = c11Result{obs: res.obs[:nChain]}
+			resend = &res.obs[nChain]
+		} else if len(res.obs) == nChain && !res.refused {
+			r.Count("oracle-failures.digest")
+			r.Fail(hk.Failure{Sig: "digest:no-resend", What: "the chain reached its 401 + Digest challenge but nothing was re-sent (harness expectation)", Input: in, Got: res.obs})
+		}
+		judgeChain(r, "digest", specs, p, &chain, in)
+		hosts := append([]string(nil), chain.urlHost...)
+		if resend != nil {
+			// the re-send: the first request again - same URL host, same Host header, same method and body,
+			// the caller's headers with Authorization SET to the digest answer - and nothing after it
+			wire := init.render()
+			if p.override != "" {
+				wire = p.override
+			}
+			want := p.hdr
+			want[0] = 1
+			switch {
+			case len(res.obs) > nChain+1:
+				r.Count("oracle-failures.digest")
+				r.Fail(hk.Failure{Sig: "digest:more-than-one-resend", What: "more than one request after the digest challenge", Input: in, Got: res.obs[nChain:]})
+			case strings.TrimSuffix(resend.Host, ":") != strings.TrimSuffix(wire, ":"):
+				r.Count("oracle-failures.digest")
+				r.Fail(hk.Failure{Sig: "digest:resend-not-to-the-named-url", What: "the digest re-send (the first request's headers + the digest answer) was not addressed to the URL the caller named: it went to a host learned from a redirect, below the redirect policies and Go's cross-origin header rule",
+					Input: in, Got: *resend, Want: wire})
+				hosts = append(hosts, resend.Host)
+			case resend.H != want || resend.Method != p.method || resend.Body != len(p.body):
+				r.Count("oracle-failures.digest")
+				r.Fail(hk.Failure{Sig: "digest:resend-shape", What: "the digest re-send is not the first request again with Authorization set to the digest answer", Input: in, Got: *resend, Want: want})
+				hosts = append(hosts, init.render())
+			default:
+				hosts = append(hosts, init.render())
+			}
+			r.Count("digest.resend=yes")
+		} else {
+			r.Count("digest.resend=no")
+		}
+		all := c11Result{obs: res.obs, urlHost: hosts}
+		if len(res.obs) > nChain+1 {
+			all.obs = res.obs[:nChain+1]
+		}
+		r.Count(fmt.Sprintf("digest.hops=%d", len(p.targets)))
+		r.Add(hk.Case{Coq: fmt.Sprintf("DigestCase %s %s %s %s %s %s", coqPs, hk.CoqStr(init.render()), p.coqHdr(), hk.CoqStrList(p.targets), coqObs(all), hk.CoqBool(res.refused)),
+			Desc: map[string]interface{}{"kind": "digest", "policies": plain, "plan": p.desc(), "observed": res.obs, "refused": res.refused}},
+			"a|"+strings.Join(plain, ",")+"|"+init.render()+"|"+strings.Join(p.targets, ","), resend != nil && len(p.targets) >= 1)
+	}
+}
